@@ -369,7 +369,7 @@ theorem parse6_quad (Q q : Str) (b0 b1 b2 b3 : UInt8) (hQ : '.' ∉ Q) (hq : ine
       | .ok v => .ok (v.take (v.length - 4) ++ [b0, b1, b2, b3])
       | .error e => .error e := by
   obtain ⟨ip, hip, hraw⟩ := ip4_of_quad q b0 b1 b2 b3 hq
-  unfold parse6
+  unfold parse6 parse6With
   have hd : has '.' (Q ++ ':' :: q) = true := by rw [has_true_iff]; simp [hdot]
   rw [if_pos hd, rsplit1_append ':' Q q hcol]
   simp only
@@ -410,7 +410,7 @@ theorem parse6_full (s : Str) (gs : List Nat) (hs : Side s gs) (hl : gs.length =
   cases hs with
   | hex ps hg ht hv =>
     have hlen : ps.length = 8 := by rw [hv] at hl; simpa [Segs.vals] using hl
-    unfold parse6
+    unfold parse6 parse6With
     rw [if_neg (by rw [ht, (has_false_iff '.' _).mpr hg.no_dot]; simp), ht, parseGroups_plain ps hg hlen, hv]
   | quad ps q b0 b1 b2 b3 hg ht hq hdot hcol hv =>
     have hlen : ps.length = 6 := by rw [hv] at hl; simp [Segs.vals] at hl; omega
@@ -449,7 +449,7 @@ theorem parse6_dc (l r : Str) (a b : List Nat) (L : Segs) (hL : L.Good) (hl : l 
         · exact absurd h (by decide)
         · exact absurd h (by decide)
         · rw [ht] at h; exact hg.no_dot h
-    unfold parse6
+    unfold parse6 parse6With
     rw [if_neg (by rw [(has_false_iff '.' _).mpr hnd]; simp), hl, ht, parseGroups_dc' L R hL hg, ← hl, ← ht, ← ha, ← hv,
       ← haL, ← hbR]
     by_cases hu : ((l.isEmpty || r.isEmpty) && a.length + b.length == 7) = true
